@@ -116,13 +116,16 @@ def type_domains(repo: Repo) -> Dict[str, List[ClassInfo]]:
     return out
 
 
-# function (rel suffix, qualname, subject expression) -> domain name
+# function (rel suffix, qualname, subject as a path from the parameters) -> domain name
+# The subject is given by value, not by local name: `t.element_type` matches
+# whatever local the function stores it in, and helpers the subject is passed
+# to are followed.
 DISPATCH_SITES: List[Tuple[str, str, str, str]] = [
     ("renderer/formatter.py", "Formatter.format_type", "t", "FieldType"),
     ("renderer/formatter.py", "Formatter.format_constant_type", "c", "ConstantKind"),
     ("renderer/formatter.py", "Formatter.format_op_mode_endecode_message_field", "t", "FieldType"),
-    ("renderer/formatter.py", "Formatter.format_op_mode_endecode_array", "t_", "ElemType"),
-    ("renderer/formatter.py", "Formatter.format_op_mode_endecode_alias", "t_", "AliasTarget"),
+    ("renderer/formatter.py", "Formatter.format_op_mode_endecode_array", "t.element_type", "ElemType"),
+    ("renderer/formatter.py", "Formatter.format_op_mode_endecode_alias", "t.type", "AliasTarget"),
     ("impls/c/formatter.py", "CFormatter.format_bp_type", "t", "FieldType"),
     ("impls/c/formatter.py", "CFormatter.format_bp_type_flag", "t", "FieldType"),
     ("impls/c/formatter.py", "CFormatter.format_bp_array_processor_name", "d", "ArrayOwner"),
@@ -172,6 +175,44 @@ def isinstance_chain(fn: ast.FunctionDef, subject: str) -> Tuple[List[Tuple[List
     return tests, final_raise
 
 
+def dispatch_fallthrough(repo: Repo, fi: Any, subject: str) -> Tuple[List[Tuple[List[str], ast.AST, List[str]]], int, List[str]]:
+    """Paths of fi (private helpers of the class inlined) that end in a raise
+    without a positive class test on the subject: [(negated class names,
+    raise node, functions entered)], number of class tests seen, and the
+    qualified names of the helpers that were inlined."""
+    from .flows import compiler_flow
+    from .normal import V as _V
+    from .pyflow import single_atom as _sa
+
+    entered: List[str] = []
+
+    def inl(name: str, fn: ast.FunctionDef) -> bool:
+        ok = name.startswith("_") and not name.startswith("__")
+        if ok and name not in entered:
+            entered.append(name)
+        return ok
+
+    assert fi.cls is not None
+    flow = compiler_flow(repo, fi.cls.name, fi.rel.split("/bitproto/")[-1], inline=inl, max_paths=20000)
+    paths = flow.run(fi.node)
+    subj = _V(subject)
+    falls: List[Tuple[List[str], ast.AST, List[str]]] = []
+    ntests = 0
+    seen_tests = set()
+    for p in paths:
+        pos, neg = [], []
+        for k, t in p.guards:
+            if k[0] == "isinstance" and k[1] == subj:
+                seen_tests.add(k[2])
+                (pos if t else neg).append(k[2])
+        if p.done == "raise" and not pos:
+            rz = [e for e in p.effects if e.kind == "raise"]
+            names = sorted({n for grp in neg for n in grp})
+            falls.append((names, rz[-1].node if rz else None, [g for g in p.guard_text() if "isinstance" not in g]))
+    ntests = len(seen_tests)
+    return falls, ntests, entered
+
+
 @rule("A2", "every isinstance dispatch over a type/definition that ends in a raise covers its whole domain")
 def a2(repo: Repo) -> RuleResult:
     res = RuleResult("A2", floor=12)
@@ -187,44 +228,46 @@ def a2(repo: Repo) -> RuleResult:
             res.unsure(f"A2: {e}")
             continue
         mapped.add((fi.rel, fi.qual))
-        tests, final = isinstance_chain(fi.node, subject)
         domain = doms[dom]
         part = _lang_part(fi.rel)
-        res.inst(part=part, function=qual, subject=subject, domain=dom, branches=len(tests))
-        if not tests:
-            res.unsure(f"A2: {qual}: no isinstance chain over `{subject}` recognised")
+        try:
+            falls, ntests, entered = dispatch_fallthrough(repo, fi, subject)
+        except Inconclusive as e:
+            res.unsure(f"A2: {qual}: {e}")
             continue
-        uncovered = []
+        for h in entered:
+            if fi.cls is not None:
+                hf = m.lookup(fi.cls, h)
+                if hf is not None:
+                    mapped.add((hf.rel, hf.qual))
+        res.inst(part=part, function=qual, subject=subject, domain=dom, class_tests=ntests, fallthrough_paths=len(falls), helpers=entered)
+        if ntests == 0:
+            res.unsure(f"A2: {qual}: no class test on `{subject}` found on any path")
+            continue
+        uncovered: List[str] = []
         for k in domain:
-            ok = False
-            for names, _ in tests:
+            for names, node, other in falls:
+                hit = False
                 for nme in names:
                     tc = [c for c in m.all_classes() if c.name == nme and c.rel.endswith("_ast.py")]
                     if tc and m.is_subclass(k, tc[0]):
-                        ok = True
-            if not ok:
-                uncovered.append(k.name)
+                        hit = True
+                if not hit and not other:
+                    if k.name not in uncovered:
+                        uncovered.append(k.name)
         if uncovered:
             f = Finding(
-                "A2", fi.rel, fi.node.lineno, qual, f"isinstance chain over `{subject}`",
-                f"domain {dom} member(s) {uncovered} reach the end of the dispatch" + (" and raise InternalError" if final is not None else " unhandled"),
+                "A2", fi.rel, fi.node.lineno, qual, f"class dispatch over `{subject}`",
+                f"domain {dom} member(s) {uncovered} reach the end of the dispatch and raise",
                 witness=f"a schema using a {uncovered[0]} where this function is called",
                 tag=f"{qual}:{','.join(uncovered)}",
             )
             f.part = part
             res.bad(f)
-        elif final is not None:
-            discharged.add(id(final))
-        # dead branch observation
-        seen: List[str] = []
-        for names, node in tests:
-            for nme in names:
-                tc = [c for c in m.all_classes() if c.name == nme and c.rel.endswith("_ast.py")]
-                for s in seen:
-                    sc = [c for c in m.all_classes() if c.name == s and c.rel.endswith("_ast.py")]
-                    if tc and sc and m.is_subclass(tc[0], sc[0]) and tc[0] != sc[0]:
-                        res.note(f"observation: {qual}: branch on {nme} is dead behind earlier branch on {s}")
-                seen.append(nme)
+        else:
+            for names, node, other in falls:
+                if node is not None and not other:
+                    discharged.add(id(node))
     # unmapped dispatch chains that end in InternalError
     for mod in m.mods.values():
         if "/renderer/" not in mod.rel:
